@@ -699,6 +699,38 @@ class Body:
             return d[0]
         return None
 
+    def const_eval(self, op, depth=0):
+        """Integer value of operand op when it is a constant or a local computed from constants only
+        (`K + 1`, `2 * K`, `K - 1`: unoptimised MIR evaluates these at run time); else None."""
+        k = op_const_bits(op)
+        if k is not None or depth > 6 or op['k'] not in ('copy', 'move'):
+            return k
+        pl = op['place']
+        d = self.single_def(pl['l'])
+        if d is None or d[1] != 'assign' or d[2]['place']['p']:
+            return None
+        rv = d[2]['rv']
+        if pl['p']:
+            # `(t).0` of a checked operation
+            if len(pl['p']) == 1 and pl['p'][0]['k'] == 'field' and pl['p'][0]['i'] == 0 and rv['k'] == 'binop' and rv['op'].endswith('WithOverflow'):
+                pass
+            else:
+                return None
+        if rv['k'] in ('use', 'cast') and not pl['p']:
+            return self.const_eval(rv['op'], depth + 1)
+        if rv['k'] == 'binop':
+            a, b_ = self.const_eval(rv['a'], depth + 1), self.const_eval(rv['b'], depth + 1)
+            if a is None or b_ is None:
+                return None
+            o = rv['op'].replace('WithOverflow', '').replace('Unchecked', '')
+            if o == 'Add':
+                return a + b_
+            if o == 'Sub':
+                return a - b_
+            if o == 'Mul':
+                return a * b_
+        return None
+
     def trace_local(self, l, seen=None, through_cast=True):
         """Follow copies/moves (and casts) backwards from local l.
         Returns list of origins: ('param', idx) | ('call', CallSite) | ('rv', point, rvalue) |
@@ -730,18 +762,7 @@ class Body:
                     elif o['k'] in ('copy', 'move'):
                         # `(x as V).i` where x was built as `V(.., y_i, ..)` in this body is y_i (aggregate folding;
                         # common after A-DESUGAR / A-INLINE)
-                        folded = self._fold_projection(o['place'])
-                        if folded:
-                            for fo in folded:
-                                fl_ = op_local(fo)
-                                if fl_ is not None:
-                                    out.extend(self.trace_local(fl_, seen, through_cast))
-                                elif fo['k'] == 'const':
-                                    out.append(('const', p, fo))
-                                else:
-                                    out.append(('place', p, fo['place']))
-                        else:
-                            out.append(('place', p, o['place']))
+                        out.extend(self._trace_projected(o['place'], p, seen, through_cast))
                     else:
                         out.append(('const', p, o))
                 else:
@@ -750,6 +771,50 @@ class Body:
                 out.append(('other', p, data))
         if 1 <= l <= self.arg_count:
             out.append(('param', l))
+        return out
+
+    def _trace_projected(self, place, p, seen, through_cast, depth=0):
+        """origins of a read of the projected place `place` at point p: folded over the aggregates that built it
+        (repeatedly: `((x as Continue).0 as Some).0`), else the place itself"""
+        folded = self._fold_projection(place) if depth < 6 else None
+        if not folded:
+            return [('place', p, place)]
+        out = []
+        for fo in folded:
+            fl_ = op_local(fo)
+            if fl_ is not None:
+                out.extend(self.trace_local(fl_, seen, through_cast))
+            elif fo['k'] == 'const':
+                out.append(('const', p, fo))
+            else:
+                out.extend(self._trace_projected(fo['place'], p, seen, through_cast, depth + 1))
+        return out
+
+    def _agg_defs(self, l, depth=0):
+        """The aggregates that can be the value of local l, following whole-value moves; a `from_residual` call counts
+        as an (opaque) Err/Break value. None when some definition is anything else."""
+        ds = self.defs.get(l, [])
+        if not ds or depth > 6:
+            return None
+        out = []
+        for d in ds:
+            if d[1] == 'call':
+                if d[2].name.endswith('::from_residual'):
+                    out.append({'k': 'agg', 'variant': 'Err', 'opaque': True, 'ops': []})
+                    continue
+                return None
+            if d[1] != 'assign' or d[2]['place']['p']:
+                return None
+            rv = d[2]['rv']
+            if rv['k'] == 'agg':
+                out.append(rv)
+            elif rv['k'] == 'use' and op_local(rv['op']) is not None and depth < 6:
+                sub = self._agg_defs(op_local(rv['op']), depth + 1)
+                if sub is None:
+                    return None
+                out.extend(sub)
+            else:
+                return None
         return out
 
     def _fold_projection(self, pl):
@@ -771,19 +836,18 @@ class Body:
         rest = proj[k + 1:]
         if rest:
             return None
-        ds = self.defs.get(pl['l'], [])
-        if not ds:
+        aggs = self._agg_defs(pl['l'])
+        if not aggs:
             return None
         out = []
-        for d in ds:
+        for rv in aggs:
             # every definition must be an aggregate; reading `(x as V).i` implies x is a V, so only the
             # V-aggregates can be the source (the others belong to paths on which this read does not happen)
-            if d[1] != 'assign' or d[2]['place']['p'] or d[2]['rv']['k'] != 'agg':
-                return None
-            rv = d[2]['rv']
             if var is not None and rv.get('variant') != var:
                 continue
-            if var is None and len(ds) != 1:
+            if rv.get('opaque'):
+                return None
+            if var is None and len(aggs) != 1:
                 return None
             ops = rv.get('ops') or []
             if idx >= len(ops):
@@ -816,6 +880,12 @@ class Body:
                 break
             seen.add(cur)
             ds = self.defs.get(cur, [])
+            if len(ds) > 1:
+                # a temporary re-assigned in several blocks (duplicated tails after specialisation, loops): the
+                # definition that counts is the last one in the block of the switch itself
+                here = [d for d in ds if d[1] == 'assign' and self.pstart[block] <= d[0] < self.pterm[block]]
+                if here:
+                    ds = [max(here, key=lambda d: d[0])]
             if len(ds) != 1:
                 break
             (p, kind, data) = ds[0]
@@ -1067,6 +1137,31 @@ class Body:
                 origins = residual_origins(cs)
                 calls = [o for o in origins if isinstance(o, CallSite)]
                 origin = calls[-1] if calls else (origins[0] if origins else None)
+                if not calls:
+                    # `helper(..)?` with the helper inlined and its `return Err(E::V)` specialised: the residual is an
+                    # error value BUILT here, of the function's own error type (identity conversion): same thing as a
+                    # literal `return Err(E::V)`
+                    built = []
+                    al = cs.arg_local(0)
+                    for o in (self.trace_local(al) if al is not None else []):
+                        if o[0] == 'rv' and o[2]['k'] == 'agg' and strip_crate(o[2].get('adt') or '') == 'std::result::Result' and o[2].get('variant') == 'Err' and o[2].get('ops'):
+                            pl_ = op_local(o[2]['ops'][0])
+                            for o2 in (self.trace_local(pl_) if pl_ is not None else []):
+                                if o2[0] == 'rv' and o2[2]['k'] == 'agg' and o2[2].get('agg') == 'adt':
+                                    built.append((o[2], o2[2]))
+                                else:
+                                    built.append(None)
+                        elif o[0] == 'rv' and o[2]['k'] == 'agg' and o[2].get('variant') in ('Ok', 'Some'):
+                            continue        # other definitions of a shared result local: not on the Break path
+                        else:
+                            built.append(None)
+                    m = re.match(r'^std::result::Result<.*, (.*)>$', self.ret_ty or '')
+                    ety = m.group(1) if m else None
+                    kinds = {(strip_crate(x[1]['adt']), x[1]['variant']) for x in built if x is not None}
+                    if built and None not in built and len(kinds) == 1 and ety is not None and strip_crate(built[0][1]['adt']) == strip_crate(ety):
+                        out.append({'point': p, 'kind': 'err', 'ops': built[0][0]['ops'], 'variant': built[0][1]['variant'], 'adt': strip_crate(built[0][1]['adt']),
+                                    'inner_ops': built[0][1]['ops'], 'residual_call': cs})
+                        return
                 out.append({'point': p, 'kind': 'err_prop', 'call': origin, 'calls': calls, 'residual_call': cs})
             else:
                 out.append({'point': p, 'kind': 'forward', 'call': cs})
